@@ -141,6 +141,12 @@ def run(ctx):
                 # operations in the ROOT directory itself (the fixed region on FAT12/16): everything below /keep and /work is protected
                 work = [["makedir", "/made in the root"], ["create", "/root file.txt"], ["makedir", "/made in the root/second level"],
                         ["open", "rf", "/root file.txt", "a"], ["write", "rf", "52" * (v.bpc + 3)], ["hclose", "rf"], ["removedir", "/made in the root/second level"]] + work
+            if i % 3 == 0 and v.bpc <= 2048:
+                # a cluster-based directory that grows by a cluster on its LAST makedir: the operation after it starts from a state in which that
+                # growth is durable (C12-m10: the only FAT flush of makedir moved in front of the parent's rewrite, the link to the new
+                # cluster stayed in memory until some later operation flushed)
+                ng = (v.bpc // 32 - 2) // 2 + 1
+                pre += [["makedir", "/grow"]] + [["makedir", f"/grow/dir number {q:02d}"] for q in range(ng)]
             ops = pre + work
             case = history.Case(label, img, ops, mount=dict(encoding=enc), meta=meta)
             ctx.evaluations += 1
@@ -173,6 +179,10 @@ def run(ctx):
                     if op[0] == "removetree":
                         # the whole subtree is what the operation removes: everything below it is its target, at every depth
                         prot = {p: t for p, t in prot.items() if not p.startswith(op[1].rstrip("/") + "/")}
+                    # directories too are "reachable by their path and listed": durable, not the target, in a directory the operation does not rewrite
+                    dnorm = [d.rstrip("/") or "/" for d in dirs]
+                    prot_d = [p for p, t in tree.items() if t[0] == "d" and p not in targets and p not in dnorm and (p.rsplit("/", 1)[0] or "/") not in dnorm
+                              and not (op[0] == "removetree" and p.startswith(op[1].rstrip("/") + "/"))]
                     pts = crash_points(w, v.bps, ctx.scale(60, 200))
                     if len(pts) >= 3 and prot:
                         ctx.nontrivial.add((label, op[0], tuple(p for p in pts[:6])))
@@ -204,6 +214,14 @@ def run(ctx):
                                         except Exception as e2:  # noqa
                                             bad = f"{p!r} cannot be read: {type(e2).__name__}: {e2}"
                                             break
+                                    for p in prot_d if not bad else []:
+                                        try:
+                                            if not f2.isdir(p):
+                                                bad = f"directory {p!r} is no longer reachable"
+                                                break
+                                        except Exception as e2:  # noqa
+                                            bad = f"directory {p!r} cannot be resolved: {type(e2).__name__}: {e2}"
+                                            break
                             except Exception as e3:  # noqa
                                 bad = f"image cannot be mounted: {type(e3).__name__}: {e3}"
                         else:
@@ -213,6 +231,10 @@ def run(ctx):
                                     break
                                 if rw[p][0] != "f" or rw[p][2] != t[2]:
                                     bad = f"{p!r} reads back differently"
+                                    break
+                            for p in prot_d if not bad else []:
+                                if p not in rw or rw[p][0] != "d":
+                                    bad = f"directory {p!r} is no longer reachable"
                                     break
                         if bad:
                             ctx.violation(f"{label}: crash during op {k} {op[:2]} after write {wi}/{len(w)} (+{cut} bytes): {bad}",
